@@ -62,7 +62,7 @@ def crash_site(text):
 
 
 def run_subcheck(tree, cid, seed):
-    env = dict(os.environ, VERIF_REPO=tree, VERIF_SEED=str(seed))
+    env = dict(os.environ, VERIF_REPO=tree, VERIF_SEED=str(seed), VERIF_COVER_PIN="0")      # the coverage pin is about the committed metamodel's package
     p = subprocess.run([os.path.join(V.VERIF, "check"), cid, "--tier", "quick"], capture_output=True, text=True, timeout=3600, env=env, cwd=V.VERIF)
     viol = [l for l in p.stdout.split("\n") if l.startswith("VIOLATION")]
     known = [l for l in p.stdout.split("\n") if l.startswith("KNOWN-FINDING")]
@@ -155,6 +155,7 @@ def run(chk):
     known = {o["key"].replace("~", "").replace(" ", ""): o for o in opens}
     seen_known, unknown = {}, []
     results = []
+    skipped_c17 = []
     with V.scratch("c06-") as d:
         def one(item):
             name, model = item
@@ -168,6 +169,11 @@ def run(chk):
                     todo = [c for c in FAMILY_CHECKS.get(name, checks) if not (c == "C07" and any(x[0] == "rust" for x in crashes))]
                     if name == "core" and "C17" not in todo and not any(x[0] == "testdata" for x in crashes):
                         todo.append("C17")      # the test vectors of the evolved model (quick tier: on the combined model only)
+                    if "C17" in todo and any(not e.get("typeName") for e in model.get("requests", []) + model.get("notifications", [])):
+                        # C17's verified checker does not model how the CLASS of a message without typeName is named (Strict.msg_classes):
+                        # on such a model every vector of that message would be "of an unknown class" — not run, recorded
+                        todo = [c for c in todo if c != "C17"]
+                        skipped_c17.append(name)
                     for cid in todo:
                         subs.append(run_subcheck(tree, cid, chk.seed))
                 # dotnet / testdata plugins must terminate successfully too
@@ -220,6 +226,7 @@ def run(chk):
                 if un:
                     unknown.append((un[0], name, json.dumps((s.get("replay") or {}).get("input"))[:600], s))
     chk.extra["evolved_models"] = [r["model"] for r in results]
+    chk.extra["C17_not_run_on_models_with_messages_without_typeName"] = sorted(set(skipped_c17))
     chk.extra["sub_checks_run"] = n_sub
     chk.extra["programs"] = len(results)
     chk.extra["explanation"] = ("sampled programs x proved per-program obligations: %d evolved metamodels (systematic families exhaustive over their targets + "
